@@ -1,13 +1,17 @@
 (* Properties_C03 -- well-formed EDN is read with full structural fidelity.  Statements only.
    PARTIAL: proved for unqualified symbols and keywords of ANY length at ANY offset (through
    the proved 16-byte identifier scanner): the value carries exactly the name bytes, the
-   source range is the token, the cursor stops behind it.  Integers: Properties_C04; floats:
-   C05; strings: C06; ranges: C11.  Collections, tags, characters and the grammar-level
-   statement are decided by the correspondence run with two independent oracles (value-first
+   source range is the token, the cursor stops behind it; and for WHOLE DOCUMENTS of a fragment, of unbounded size
+   and nesting (C03_document_fragment): terms built from integer literals of any length, unqualified keywords,
+   vectors and lists, rendered with single spaces, are read by the model as it is run (every flag set, any options)
+   to a tree denoting exactly that term -- kinds, order and count of elements, integer values / big-integer digits,
+   keyword name bytes -- with no error.  Integers: Properties_C04; floats: C05; strings: C06; ranges: C11.
+   The other kinds (sets, maps, tags, characters, strings in collections), other surface renderings and the
+   grammar-level statement are decided by the correspondence run with two independent oracles (value-first
    renderings; derivations of the published grammar). *)
 From Coq Require Import ZArith NArith List Bool String.
 From Coq.Strings Require Import Byte.
-From Verif Require Import Lanes Common Values Scan Numbers Tokens ScanProofs FidelityProofs.
+From Verif Require Import Lanes Common Values Scan Numbers Tokens Reader Configs ScanProofs FidelityProofs NumLiteral FlagProofs RoundTrip.
 Import ListNotations.
 Local Open Scope N_scope.
 
@@ -22,5 +26,26 @@ Theorem C03_keyword_partial : forall m e s l, l <> [] -> forallb identb l = true
   Ret (Some (mk (VKeyword None l) (cur s) (cur s + 1 + N.of_nat (List.length l)))) (with_cur s (cur s + 1 + N.of_nat (List.length l))).
 Proof. exact read_keyword_plain. Qed.
 
+(* whole documents of the fragment: the run of the model returns a tree that denotes the term *)
+Theorem C03_document_fragment : forall c o m t, In c all_cfgs -> wft t ->
+  slice m 0 (List.length (pr t)) = pr t ->
+  exists r s n, run_doc c o m (N.of_nat (List.length (pr t))) = Ret r s /\
+                r_value r = Some n /\ denotes c t n /\ r_err r = EOk /\ r_eof r = false.
+Proof. exact read_document. Qed.
+(* and at any position inside any buffer (the induction the document theorem rests on) *)
+Theorem C03_term_anywhere : forall c, In c all_cfgs -> forall o handler xe xh sort m e n t, (tsize t <= n)%nat -> wft t ->
+  forall s, Reader.is_ok s = true -> cur s + N.of_nat (List.length (pr t)) <= e -> slice m (cur s) (List.length (pr t)) = pr t ->
+  ends_at m e (cur s + N.of_nat (List.length (pr t))) ->
+  Reads c o handler xe xh sort m e s t (cur s + N.of_nat (List.length (pr t))).
+Proof. exact (fun c Hc o handler xe xh sort m e n => read_term c Hc o handler xe xh sort m e n). Qed.
+
+(* non-vacuity: [1 (:a -20) [] :kw 18446744073709551616] is a well-formed term of the fragment, and this is its text *)
+Example C03_fragment_example :
+  let t := TVec [TInt false ["1"%byte]; TList [TKw ["a"%byte]; TInt true ["2"; "0"]%byte]; TVec []; TKw ["k"; "w"]%byte;
+                 TInt false (list_byte_of_string "18446744073709551616")] in
+  wft t /\ pr t = list_byte_of_string "[1 (:a -20) [] :kw 18446744073709551616]".
+Proof. split; [cbn; repeat split; try discriminate; try reflexivity; left; discriminate|reflexivity]. Qed.
+
+Print Assumptions C03_document_fragment.
 Print Assumptions C03_symbol_partial.
 Print Assumptions C03_keyword_partial.
